@@ -54,6 +54,8 @@ var c13Faults = []string{
 	"{{ 1 % 0 }}",
 	"@each(v in 3)x@end",
 	"{{ \"s\".len(",
+	"{{ {undefinedName} }}", // shorthand property: the name is the identifier that is looked up
+	"{{ o = {a: 1, undefinedName}; o.a }}",
 }
 
 func countNewlines(s string) uint {
